@@ -220,7 +220,9 @@ def spec_py(a):
 def interleave(ctx, fmt, d, stored, lost, base_vis):
     rng = ctx.rng
     n = ctx.scale(12, 120)
+    d.select(flags='all')
     d.select()
+    cur = 'all'     # the flag selection in force: the last flags= argument (it survives every other select() call)
     for step in range(n):
         kind = rng.choice(['dumps', 'channels', 'ants', 'reset', 'pol'])
         try:
@@ -243,8 +245,13 @@ def interleave(ctx, fmt, d, stored, lost, base_vis):
         r0 = np.asarray(d.raw_flags[:]).copy() if fmt == 'v4' else None
         arg = rng.choice(['cam', 'all', '', 'static,cal_rfi', ['data_lost'], 'bogus'])
         wsel = rng.choice([None, 'all', ''])
+        keep = rng.random() < 0.3      # no flags= in this step: the previous flag selection must still be in force
+        if keep:
+            arg = cur
         try:
-            if wsel is None:
+            if keep:
+                d.select(weights=wsel) if (fmt == 'v3' and wsel is not None) else None
+            elif wsel is None:
                 d.select(flags=arg)
             else:
                 d.select(flags=arg, weights=wsel) if fmt == 'v3' else d.select(flags=arg)
@@ -262,6 +269,7 @@ def interleave(ctx, fmt, d, stored, lost, base_vis):
             ctx.disagree('fmt=%s;what=flag_select_changes_selection' % fmt,
                          dict(fmt=fmt, prior=kind, flags=canon_arg(arg)), after[3], before[3],
                          'select(flags=...) changed vis / raw flags / time-freq-product selection')
+        cur = arg
         # boolean flags under the current selection
         m = spec_py(arg)
         mask = m[3] if fmt == 'v2' else m[1]
@@ -271,7 +279,8 @@ def interleave(ctx, fmt, d, stored, lost, base_vis):
         fl = fl.view(np.uint8) != 0 if fl.dtype == bool else fl != 0
         if not np.array_equal(fl, (sub & np.uint8(mask)) != 0):
             ctx.disagree('fmt=%s;what=flags_bool_after_history' % fmt,
-                         dict(fmt=fmt, prior=kind, flags=canon_arg(arg), dumps=d.dumps.tolist(), channels=d.channels.tolist()),
+                         dict(fmt=fmt, prior=kind, flags=canon_arg(arg), flags_kw_in_step=not keep,
+                              dumps=d.dumps.tolist(), channels=d.channels.tolist()),
                          fl.shape, sub.shape, 'boolean flags after a selection history differ from (raw & mask) != 0')
         ctx.note_case((fmt, 'hist', step, kind, canon_arg(arg), before[0], before[1]), sample=None)
         ctx.count('history_steps')
